@@ -357,28 +357,37 @@ func (l *vfE5Life) deliver(t *Topic, c *Channel, k int64) bool {
 	return true
 }
 
-func (l *vfE5Life) waitGone(t *Topic, cname string) {
+// waitGone waits for the asynchronous once-only delete callbacks (`go deleter.Do(...)`) to run to
+// their end.  Once the object has left its map the real callback is the Once's first call, so a
+// second Do (with a no-op) blocks until that first call has returned — a join, not a sleep.  (The
+// callback's tail sends on the topic's channelUpdateChan; a pump poked late would re-read the
+// paused flag at an arbitrary moment.)
+func (l *vfE5Life) waitGone(t *Topic, c *Channel) {
 	deadline := time.Now().Add(10 * time.Second)
 	for {
-		_, err := t.GetExistingChannel(cname)
+		_, err := t.GetExistingChannel(c.name)
 		if err != nil {
 			break
 		}
 		if time.Now().After(deadline) {
-			l.t.Fatalf("ephemeral channel %s:%s not auto-deleted within 10s", t.name, cname)
+			l.t.Fatalf("ephemeral channel %s:%s not auto-deleted within 10s", t.name, c.name)
 		}
-		time.Sleep(time.Millisecond)
+		time.Sleep(200 * time.Microsecond)
+	}
+	if c.ephemeral {
+		c.deleter.Do(func() {})
 	}
 	if t.ephemeral && len(l.chans(t)) == 0 {
 		for {
 			if _, err := l.n.GetExistingTopic(t.name); err != nil {
-				return
+				break
 			}
 			if time.Now().After(deadline) {
 				l.t.Fatalf("ephemeral topic %s not auto-deleted within 10s", t.name)
 			}
-			time.Sleep(time.Millisecond)
+			time.Sleep(200 * time.Microsecond)
 		}
+		t.deleter.Do(func() {})
 	}
 }
 
@@ -503,7 +512,7 @@ func (l *vfE5Life) randomOp() {
 			l.op(fmt.Sprintf("dchan %s %s", t.name, name), "nochan")
 		} else {
 			if t.ephemeral && len(l.chans(t)) == 0 {
-				l.waitGone(t, name)
+				l.waitGone(t, &Channel{name: name})
 			}
 			l.op(fmt.Sprintf("dchan %s %s", t.name, name), "ok")
 		}
@@ -591,7 +600,7 @@ func (l *vfE5Life) randomOp() {
 		c.RemoveClient(k)
 		delete(l.where, k)
 		if len(ks) == 1 && c.ephemeral {
-			l.waitGone(t, c.name)
+			l.waitGone(t, c)
 		}
 		l.op(fmt.Sprintf("unsub %s %s %d", t.name, c.name, k), "ok")
 	case x < 78: // deliver
